@@ -120,13 +120,41 @@ func runC18(c *Ctx) {
 		c.Check("C18-R1", "worker-goroutine", start.Pos(), false, "ConcurrentQueue.Start does not start a worker goroutine (undecided)")
 		return
 	}
-	sels := selectsOf(worker)
+	// the worker: its function plus the private parts its loop body may have been split into (`go cq.run()` calling
+	// step methods); selects, list operations and sends are collected over all of them, path rules run inside the
+	// function that holds the instruction and are lifted to the call site where they need the caller's context
+	parts := p.regionOf(worker)
+	var sels []selInfo
+	for _, f := range parts {
+		sels = append(sels, selectsOf(f)...)
+	}
 	c.Floor("C18-R1", "select statements in the worker", len(sels), 3)
-	fronts := callsNamed(worker, "Front")
+	var fronts []*ssa.Call
+	for _, f := range parts {
+		fronts = append(fronts, callsNamed(f, "Front")...)
+	}
 	c.Floor("C18-R1", "overflow.Front calls", len(fronts), 1)
+	isFront := func(v ssa.Value) bool { return isResultOfCall(p.resolveParam(v), "Front", -1) }
 	emptyEdge := func(from *ssa.BasicBlock, si int) bool {
 		f := edgeFactOf(from, si)
-		return f != nil && f.Kind == "nil" && isResultOfCall(f.V, "Front", -1)
+		return f != nil && f.Kind == "nil" && isFront(f.V)
+	}
+	// reachable in the worker without taking a cut edge: inside its own function and, for a part, at (one of) its call sites
+	var reachableLifted func(at ssa.Instruction, cut func(*ssa.BasicBlock, int) bool, depth int) bool
+	reachableLifted = func(at ssa.Instruction, cut func(*ssa.BasicBlock, int) bool, depth int) bool {
+		f := at.Parent()
+		if !reachableAvoiding(f, nil, at, cut) {
+			return false
+		}
+		if f == worker || f.Parent() != nil || depth > 3 {
+			return true
+		}
+		for _, cs := range p.realCallers(f) {
+			if reachableLifted(cs, cut, depth+1) {
+				return true
+			}
+		}
+		return false
 	}
 	// items received from chanIn
 	type item struct {
@@ -161,29 +189,31 @@ func runC18(c *Ctx) {
 			nSend++
 			v := s.sel.States[k].Send
 			if isItem(v) {
-				ok := !reachableAvoiding(worker, nil, s.sel, emptyEdge)
+				ok := !reachableLifted(s.sel, emptyEdge, 0)
 				c.Check("C18-R1", "direct-handoff-only-when-overflow-empty", s.sel.Pos(), ok,
 					"a freshly received item can be offered directly to the output channel while older items wait in the overflow list: delivery order is no longer the send order")
 			} else {
 				_, f, base, okf := fieldOf(v)
-				okFront := okf && f == "Value" && isResultOfCall(base, "Front", -1)
+				okFront := okf && f == "Value" && isFront(base)
 				c.Check("C18-R1", "overflow-send-offers-front", s.sel.Pos(), okFront, "the value offered from the overflow branch is not the front element of the list")
 			}
 		}
 	}
 	c.Floor("C18-R1", "send cases to the output channel", nSend, 2)
 	// plain (non-select) sends to chanOut are not expected
-	for _, b := range worker.Blocks {
-		for _, ins := range b.Instrs {
-			if sd, ok := ins.(*ssa.Send); ok {
-				c.Check("C18-R1", "no-blocking-plain-send", sd.Pos(), false, "the worker performs a blocking send outside a select (the producer can be held, Stop cannot interrupt it)")
+	for _, f := range parts {
+		for _, b := range f.Blocks {
+			for _, ins := range b.Instrs {
+				if sd, ok := ins.(*ssa.Send); ok {
+					c.Check("C18-R1", "no-blocking-plain-send", sd.Pos(), false, "the worker performs a blocking send outside a select (the producer can be held, Stop cannot interrupt it)")
+				}
 			}
 		}
 	}
 
 	// R2: list discipline
 	seenFn := map[*ssa.Function]bool{}
-	for _, f := range append(Closures(start), Closures(worker)...) {
+	for _, f := range append(Closures(start), parts...) {
 		if seenFn[f] {
 			continue
 		}
@@ -201,17 +231,20 @@ func runC18(c *Ctx) {
 			ok = n == "Front" || n == "PushBack" || n == "Remove"
 			c.Check("C18-R2", "list-op:"+n, call.Pos(), ok, "the overflow list is used with "+n+": only Front/PushBack/Remove preserve FIFO order")
 			if n == "Remove" {
-				okArg := isResultOfCall(call.Call.Args[1], "Front", -1)
+				okArg := isFront(call.Call.Args[1])
 				// control dependent on the send case of the select that offered front.Value
 				okCtl := false
 				for _, s := range sels {
+					if s.sel.Parent() != f {
+						continue
+					}
 					for k, st := range s.states {
 						if st != "send:chanOut" || isItem(s.sel.States[k].Send) {
 							continue
 						}
 						kk := k
 						ss := s.sel
-						if !reachableAvoiding(worker, nil, call, func(from *ssa.BasicBlock, si int) bool {
+						if !reachableAvoiding(f, nil, call, func(from *ssa.BasicBlock, si int) bool {
 							idx, ok := selIndexEdge(from, si, ss)
 							return ok && idx == kk
 						}) {
@@ -229,24 +262,71 @@ func runC18(c *Ctx) {
 	}
 	// a received item is never dropped
 	var loop *Loop
-	for _, l := range loopsOf(worker) {
-		if loop == nil || len(l.Blocks) > len(loop.Blocks) {
-			loop = l
+	for _, f := range parts {
+		for _, l := range loopsOf(f) {
+			if loop == nil || len(l.Blocks) > len(loop.Blocks) {
+				loop = l
+			}
 		}
 	}
 	if loop == nil {
 		c.Check("C18-R2", "worker-loop", worker.Pos(), false, "worker has no loop")
 		return
 	}
+	loopFn := loop.Header.Parent()
+	// end of the current iteration as seen from inside function f: the back edge of the worker loop, or — in a part the
+	// loop body calls — returning to it
+	// stop signal of a step function: the constant it returns from its quit cases, provided that value makes the loop's
+	// function leave the loop (checked again, per quit case, under R3)
+	stopSignal := map[*ssa.Function]*bool{}
+	for _, s := range sels {
+		f := s.sel.Parent()
+		if f == loopFn {
+			continue
+		}
+		for k, st := range s.states {
+			if st != "recv:quit" {
+				continue
+			}
+			for _, b := range f.Blocks {
+				for si := range b.Succs {
+					if idx, ok := selIndexEdge(b, si, s.sel); ok && idx == k {
+						if ok2, sig := quitSignalLeavesLoop(p, f, b.Succs[si], b, loop); ok2 {
+							stopSignal[f] = sig
+						}
+					}
+				}
+			}
+		}
+	}
+	iterationEnd := func(q *PathQuery, f *ssa.Function) {
+		if f == loopFn {
+			q.LoopExit = func(from, to *ssa.BasicBlock) bool { return to == loop.Header }
+			return
+		}
+		prev := q.Target
+		q.Target = func(ins ssa.Instruction, via *ssa.BasicBlock) bool {
+			if r, ok := ins.(*ssa.Return); ok {
+				if sig := stopSignal[f]; sig != nil && len(r.Results) == 1 {
+					if cb, isC := constBool(resolvePhi(r.Results[0], r.Block(), via)); isC && cb == *sig {
+						return false // the worker stops: not a next iteration
+					}
+				}
+				return true
+			}
+			return prev != nil && prev(ins, via)
+		}
+	}
 	for _, it := range items {
 		it := it
-		for _, b := range worker.Blocks {
+		f := it.sel.Parent()
+		for _, b := range f.Blocks {
 			for si := range b.Succs {
 				idx, ok := selIndexEdge(b, si, it.sel)
 				if !ok || idx != it.k {
 					continue
 				}
-				q := &PathQuery{Fn: worker}
+				q := &PathQuery{Fn: f}
 				q.Barrier = func(ins ssa.Instruction) bool {
 					call, ok := ins.(*ssa.Call)
 					return ok && calleeShort(&call.Call) == "PushBack" && call.Call.Args[1] == it.val
@@ -263,7 +343,7 @@ func runC18(c *Ctx) {
 					}
 					return false
 				}
-				q.LoopExit = func(from, to *ssa.BasicBlock) bool { return to == loop.Header }
+				iterationEnd(q, f)
 				hits := exploreFromBlock(q, b.Succs[si], b)
 				c.Check("C18-R2", "received-item-sent-or-enqueued", lastPos(b), len(hits) == 0, "an item received from the input channel can reach the next iteration without having been sent or enqueued (lost notification)")
 			}
@@ -283,16 +363,22 @@ func runC18(c *Ctx) {
 			c.Check("C18-R3", "blocking-select-has-quit-case:"+name, s.sel.Pos(), quitK >= 0, "a blocking select in the worker has no quit case: Stop cannot terminate the worker while it waits here")
 		}
 		if quitK >= 0 {
-			for _, b := range worker.Blocks {
+			f := s.sel.Parent()
+			for _, b := range f.Blocks {
 				for si := range b.Succs {
 					idx, ok := selIndexEdge(b, si, s.sel)
 					if !ok || idx != quitK {
 						continue
 					}
-					q := &PathQuery{Fn: worker}
-					q.LoopExit = func(from, to *ssa.BasicBlock) bool { return to == loop.Header }
-					hits := exploreFromBlock(q, b.Succs[si], b)
-					c.Check("C18-R3", "quit-case-returns:"+name, lastPos(b), len(hits) == 0, "the quit case does not leave the worker loop")
+					okQuit := true
+					if f == loopFn {
+						q := &PathQuery{Fn: f}
+						q.LoopExit = func(from, to *ssa.BasicBlock) bool { return to == loop.Header }
+						okQuit = len(exploreFromBlock(q, b.Succs[si], b)) == 0
+					} else {
+						okQuit, _ = quitSignalLeavesLoop(p, f, b.Succs[si], b, loop)
+					}
+					c.Check("C18-R3", "quit-case-returns:"+name, lastPos(b), okQuit, "the quit case does not leave the worker loop")
 				}
 			}
 		}
@@ -409,4 +495,77 @@ func runC18(c *Ctx) {
 	checkProducersNeverDrop(c, "C18-R4")
 	checkQueueStartedOnce(c, "C18-R4")
 	checkNoQueueSendUnderClientMutex(c, "C18-R5")
+	checkCallbackProducersHandOverInline(c, "C18-R5")
+}
+
+// quitSignalLeavesLoop: the quit case sits in a step function f that the worker loop calls. It leaves the loop if every
+// return of f reachable from the quit edge yields one constant signal, and in the loop's function no path from the call
+// on which the result equals that signal reaches the next iteration.
+func quitSignalLeavesLoop(p *Program, f *ssa.Function, entry, via *ssa.BasicBlock, loop *Loop) (bool, *bool) {
+	if f.Signature.Results().Len() != 1 {
+		return false, nil
+	}
+	q := &PathQuery{Fn: f, Target: func(ins ssa.Instruction, _ *ssa.BasicBlock) bool { _, ok := ins.(*ssa.Return); return ok }}
+	hits := exploreFromBlock(q, entry, via)
+	if len(hits) == 0 {
+		return false, nil
+	}
+	var sig *bool
+	for _, h := range hits {
+		r := h.Ins.(*ssa.Return)
+		cb, ok := constBool(resolvePhi(r.Results[0], r.Block(), h.Via))
+		if !ok {
+			return false, nil
+		}
+		if sig != nil && *sig != cb {
+			return false, nil
+		}
+		sig = &cb
+	}
+	sites := p.realCallers(f)
+	if len(sites) == 0 {
+		return false, nil
+	}
+	for _, cs := range sites {
+		call, ok := cs.(*ssa.Call)
+		if !ok || call.Parent() != loop.Header.Parent() {
+			return false, nil
+		}
+		isResult := func(v ssa.Value) bool {
+			v = stripConv(v)
+			if v == ssa.Value(call) {
+				return true
+			}
+			if ph, ok := v.(*ssa.Phi); ok {
+				for _, e := range ph.Edges {
+					if stripConv(e) == ssa.Value(call) {
+						return true
+					}
+				}
+			}
+			if u, ok := v.(*ssa.UnOp); ok && u.Op == token.MUL {
+				if al, ok := u.X.(*ssa.Alloc); ok {
+					for _, st := range storesTo(al) {
+						if stripConv(st.Val) == ssa.Value(call) {
+							return true
+						}
+					}
+				}
+			}
+			return false
+		}
+		q2 := &PathQuery{Fn: call.Parent()}
+		q2.EdgeBarrier = func(from *ssa.BasicBlock, si int) bool {
+			ef := edgeFactOf(from, si)
+			if ef == nil || (ef.Kind != "true" && ef.Kind != "false") || !isResult(ef.V) {
+				return false
+			}
+			return (ef.Kind == "true") != *sig // the result is the signal on this path: the contrary edge is not taken
+		}
+		q2.LoopExit = func(from, to *ssa.BasicBlock) bool { return to == loop.Header }
+		if len(q2.From(call)) > 0 {
+			return false, nil
+		}
+	}
+	return true, sig
 }
